@@ -51,6 +51,12 @@ func (r *Run) execInstr(fr *Frame, st *State, reach Term, ins ssa.Instruction, o
 			r.copyStruct(st, l, val)
 			return reach, false
 		}
+		if _, isArr := l.Typ.Underlying().(*types.Array); isArr && l.Kind == LElem && val.Kind == VTerm && val.T.Sort == SInt {
+			// whole-array assignment: array values are references to rows of the element memory
+			m := r.heapGet(st, l.Comp)
+			r.heapSet(st, l.Comp, r.ctx.Define("h."+l.Comp, Store(m, l.Base, Select(m, val.T))))
+			return reach, false
+		}
 		r.protectedAccess(fr, st, reach, l, ins.Pos(), true)
 		r.store(st, l, val)
 		return reach, false
@@ -432,6 +438,13 @@ func (r *Run) unop(fr *Frame, st *State, reach Term, ins *ssa.UnOp) Val {
 				}
 			}
 			r.copyStructLoc(st, r.derefLoc(nv), locVal(l, types.NewPointer(l.Typ)))
+			return termVal(ref, ins.Type())
+		}
+		if _, isArr := l.Typ.Underlying().(*types.Array); isArr && l.Kind == LElem {
+			// an array value: a new reference whose row is a copy of the source row
+			ref := r.freshRef(st, "arrval")
+			m := r.heapGet(st, l.Comp)
+			r.heapSet(st, l.Comp, r.ctx.Define("h."+l.Comp, Store(m, ref, Select(m, l.Base))))
 			return termVal(ref, ins.Type())
 		}
 		r.protectedAccess(fr, st, reach, l, ins.Pos(), false)
